@@ -25,19 +25,19 @@ CLAIMED.update({
          "Runtime monitoring: loop-heavy generated graphs and directed adversarial flows are run under boundary engine options with long multi-byte inputs; panics, exceeding the logical step budget of the virtual clock, a confirmed 60 s stage-2 timeout, more new steps than MaxStepsPerSprint, limit failures that do not fail the session, too many accepted resumes and over-long / invalid UTF-8 texts in events, results and the contact are violations. Held on the executions observed only.",
          "Trusts: dates.Now() is called at least once per created step (virtual-time watchdog); wall clock only in the stage-2 confirmation (margin >= 10^4 over the normal cost).",
          "DESIGN.md §4 C05"),
- "C06": ("invariant hook on the live contact after every engine call and every modifiers.Apply, oracle = the real query evaluator",
+ "C06": ("invariant hook on the live contact after every engine call and every modifiers.Apply; oracles = the real query evaluator and an independent reference evaluator over the contact JSON",
          "Runtime monitoring: for generated query-based groups over every queryable property and contacts with right or wrong stored membership, after every engine call and every directly applied modifier membership of every query group must equal (active && query matches), a contact that became non-active is in no static group, and the net group delta equals the net effect of the contact_groups_changed events. Held on the executions observed only.",
-         "Trusts: Group.CheckQueryBasedMembership / contactql.EvaluateQuery as oracle (their own consistency is C15); membership accepted if it matches under the session environment or the merged (contact timezone) environment.",
+         "Trusts: Group.CheckQueryBasedMembership / contactql.EvaluateQuery as first oracle (their own consistency is C15) and, for the query forms it models (numbers, calendar days, presence, text, URN any/all semantics, tickets, name ~ by words, location fields by level, AND/OR), a ~300-line reference evaluator written from the documentation; membership accepted if it matches under the session environment or the merged (contact timezone) environment.",
          "DESIGN.md §4 C06"),
 })
 
 CLAIMED.update({
  "C02": ("differential monitor over restart masks (live session vs ReadSession(marshal) at chosen waits) + marshal/read/marshal fixed point",
-         "Runtime monitoring: each generated history is executed from identical clock/UUID/random sources under different restart masks (quick: all-ones + seeded masks; thorough: all 2^k masks for k<=6) and the per-sprint events, segments and session JSON must be byte-equal to the execution that keeps the session alive; at every hand-back marshal(read(marshal(s)))==marshal(s). Held on the executions observed only.",
+         "Runtime monitoring: each generated history is executed from identical clock/UUID/random sources under different restart masks (quick: all-ones + seeded masks; thorough: all 2^k masks for k<=6 calls, else all-ones, single-restart and sampled masks; histories of up to 120 resumes) and the per-sprint events, segments and session JSON must be byte-equal to the execution that keeps the session alive; at every hand-back marshal(read(marshal(s)))==marshal(s). Held on the executions observed only.",
          "Trusts: generator never references @webhook/@legacy_extra after a wait (the statement's exemptions); source state is restored after every ReadSession so only Resume consumes clock/UUID ticks.",
          "DESIGN.md §4 C02"),
  "C10": ("differential monitor (session JSON before/after rejected resumes, history with injected rejected resumes vs clean history) + fault enumeration over the asset store",
-         "Runtime monitoring: at every reachable state every resume type is tried; a resume rejected with an engine error must leave the live and the re-read session JSON unchanged and produce no events, and the history with all rejected resumes injected must equal the clean history; at every wait the session is restored against 8 kinds of faulted assets / options / corrupted JSON and resumed: never a panic or Go error, impossible resumption => failed session with failure event. Held on the executions observed only.",
+         "Runtime monitoring: at every reachable state every resume type is tried; a resume rejected with an engine error must leave the live and the re-read session JSON unchanged and produce no events, and the history with all rejected resumes injected must equal the clean history; at every wait the session is restored against 13 kinds of faulted assets / options / corrupted JSON and resumed: never a panic or Go error, impossible resumption => failed session with failure event. Held on the executions observed only.",
          "Trusts: json.Marshal(session) as the session's observable state; faults that make the changed definition itself unloadable are skipped; for 'changed but still resumable' faults only no-panic is demanded.",
          "DESIGN.md §4 C10"),
 })
@@ -78,12 +78,12 @@ CLAIMED.update({
          "Runtime monitoring: dedicated scenarios (wait -> router under test -> one sink per exit, also entered from a parent flow) over all registered tests, 0-6 cases, erroring cases, duplicate categories, shared exits, localized / expression arguments, all resume kinds and planted random draws; every step that left a node must have taken the exit of the category chosen by an independent reference router, and the stored result must carry that category's name, the match (operand for default) and the operand as input (modulo MaxResultChars). Held on the executions observed only.",
          "Trusts: Evaluator.TemplateValue and the registered test functions inside the reference router; the clock is frozen per engine call so router and reference see the same instant.",
          "DESIGN.md §4 C07"),
- "C08": ("differential monitor: every case 8x in-process and across 3 passes of fresh processes (ascending, descending, one process per case), digests compared; process-global canaries",
+ "C08": ("differential monitor: every case 8x in-process and across 3 passes of fresh processes (ascending, descending, one process per case), digests compared; canaries over process globals and shared singleton values",
          "Runtime monitoring: scenarios biased to map-order-sensitive features plus pure calls (Inspect, MigrateToLatest, Clone with fixed mapping, ContactQuery.String, template results) are executed repeatedly from identical clock/UUID/random sources; any byte difference between repetitions in one process, between fresh processes (different map hash seeds) or depending on what ran before (order / process-global contamination) is a violation. Held on the executions observed only.",
          "Trusts: Go's per-iteration map randomisation to expose order dependence (a 2-key site agrees 8 times with probability 2^-7; cases are many); SHA-256 digests.",
          "DESIGN.md §4 C08"),
- "C09": ("Go race detector over rounds of N goroutines on cold shared assets in many short-lived processes + concurrent-vs-solo transcript equality + canaries",
-         "Runtime monitoring / sanitizer: the checker is rebuilt with -race; each round builds fresh shared SessionAssets (flows stored at spec 13.0 so lazy migration runs on first use) and releases N in {2..32} goroutines from a barrier under GOMAXPROCS in {1,2,4,8,16}, each running a seeded script (start, marshal, read, resume, inspect, extract, change language, evaluate, query, modifiers) with per-goroutine lock-free clock/UUID sources that inject yields; oracles: zero race reports, every goroutine's transcript byte-equal to its solo run, process globals and shared assets unchanged. Held on the interleavings observed only.",
+ "C09": ("Go race detector over rounds of N goroutines on cold shared assets in many short-lived processes + concurrent-vs-solo transcript equality + canaries + cold-load conservation (UUID draws of concurrent vs solo first use)",
+         "Runtime monitoring / sanitizer: the checker is rebuilt with -race; each round builds fresh shared SessionAssets (flows stored at spec 13.0 so lazy migration runs on first use) and releases N in {2..32} goroutines from a barrier under GOMAXPROCS in {1,2,4,8,16}, each running a seeded script (start, marshal, read, resume, inspect, extract, change language, evaluate, query, modifiers) with per-goroutine lock-free clock/UUID sources that inject yields; oracles: zero race reports, every goroutine's transcript byte-equal to its solo run, process globals, shared singleton values and shared assets unchanged, and (cold-load clause) N goroutines asking fresh assets for the same legacy definitions at once draw from one shared counting UUID source exactly what one goroutine draws. Held on the interleavings observed only.",
          "Trusts: the race detector (happens-before; reports only races that occur in the observed executions); harness takes no lock between barrier and end of a script; rand()/random routers excluded (global lock in the random package).",
          "DESIGN.md §4 C09"),
  "C18": ("reference-model oracle: reference language chain vs msg_created / category_localized / router behaviour over the configuration grid",
